@@ -233,10 +233,11 @@ type c04Cfg struct {
 	proto     *cidlink.LinkPrototype
 	hashName  string
 	padHead   int // exact encoded size of the newest advertisement (0 = natural)
+	asyncMax  int // MaxAsyncConcurrency (0 = unlimited)
 }
 
 func (c c04Cfg) String() string {
-	return fmt.Sprintf("announce=%v discovery=%v seg=%d retry=%v ads=%d presynced=%d twoLive=%v dead=%d hash=%s", c.announce, c.discovery, c.seg, c.retry, c.nAds, c.preSynced, c.twoLive, c.dead, c.hashName)
+	return fmt.Sprintf("announce=%v discovery=%v seg=%d retry=%v ads=%d presynced=%d twoLive=%v dead=%d hash=%s asyncMax=%d", c.announce, c.discovery, c.seg, c.retry, c.nAds, c.preSynced, c.twoLive, c.dead, c.hashName, c.asyncMax)
 }
 
 // c04 enumerated cases: 2 triggers x 2 transports x 2 segmentations, chain of
@@ -260,6 +261,11 @@ func c04Decode(c int) (c04Cfg, faultPlan) {
 		// same faults on a first sync that runs to the start of the chain
 		cfg.preSynced = 0
 		at -= 4
+	}
+	if cfg.announce && at%2 == 1 {
+		// a limit on concurrent announce-triggered syncs: a failed sync
+		// must give its slot back
+		cfg.asyncMax = 1
 	}
 	return cfg, faultPlan{kind: kind, at: at, arg: 3 + at*7}
 }
@@ -289,6 +295,9 @@ func c04Plan(r *simkit.Run, c Cfg, w *World) (c04Cfg, []faultPlan) {
 			cfg.dead = 1
 		}
 		cfg.preSynced = tp.Choose(cfg.nAds, "preSynced")
+		if cfg.announce {
+			cfg.asyncMax = tp.Choose(3, "asyncMax")
+		}
 		np := 1 + tp.Choose(2, "nfaults")
 		if tp.Chance(1, 6, "manyfaults") {
 			np = tp.Range(3, 5, "nfaultsMany")
@@ -333,6 +342,9 @@ func runFaultSync(r *simkit.Run, c Cfg, mode string, planner planFunc) {
 	sopts := []dagsync.Option{dagsync.RecvAnnounce(""), dagsync.SegmentDepthLimit(cfg.seg)}
 	if cfg.retry {
 		sopts = append(sopts, dagsync.RetryableHTTPClient(2, time.Millisecond, 50*time.Millisecond))
+	}
+	if cfg.asyncMax > 0 {
+		sopts = append([]dagsync.Option{dagsync.MaxAsyncConcurrency(cfg.asyncMax)}, sopts...)
 	}
 	sub := w.NewSubscriber(sopts...)
 	sw := &syncWorld{w: w, pub: pub, sub: sub, lst: &listener{}}
